@@ -111,7 +111,13 @@ var regModel = porcupine.Model{
 func c20History(t *testing.T, seed uint64, mode string) rt.Result {
 	var ops []porcupine.Operation
 	verdict := ""
-	out := hz.Run(t, hz.Opts{Seed: seed, HookMode: hz.HookYield, NoServe: mode == "idle", Quiet: true, Limit: time.Hour}, func(w *hz.World) {
+	lisDelay := time.Duration(0)
+	if mode == "closing" && seed%2 == 0 {
+		// Serve takes a while to close its listener: registry calls land between Close's
+		// signal and Serve's own shutdown of the peers
+		lisDelay = 300 * time.Microsecond
+	}
+	out := hz.Run(t, hz.Opts{Seed: seed, HookMode: hz.HookYield, NoServe: mode == "idle", Quiet: true, Limit: time.Hour, LisCloseDelay: lisDelay}, func(w *hz.World) {
 		r := rand.New(rand.NewPCG(seed, 20))
 		// (an IPv4-mapped IPv6 address is a key of its own, distinct from the IPv4 address)
 		all := []string{"10.0.1.1", "10.0.1.2", "::ffff:10.0.1.1", "2001:db8::1", "10.0.1.3"}
